@@ -27,13 +27,39 @@ def setup_pit(net, **kw):
     return s
 
 
-def branches_literal(bp):
+DIRECTED_KINDS = ("press_control",)                 # documented: only the pressure controller acts one way
+FRC_ALWAYS = ("heat_consumer",)                     # documented: never a hydraulic connection by itself
+FRC_IF_CONTROL_ACTIVE = ("flow_control",)           # a flow controller that controls fixes the flow, a passive one connects
+
+
+def doc_flags(net):
+    """DIRECTED / FLOW_RETURN_CONNECT per branch pit row as the component documentation defines them (from the
+    table kinds and control_active), independent of what the pit columns hold"""
+    L = net["_lookups"]
+    nb = L["branch_length"]
+    dr, frc = np.zeros(nb, dtype=bool), np.zeros(nb, dtype=bool)
+    for tbl, (f, t) in L["branch_from_to"].items():
+        if tbl in DIRECTED_KINDS:
+            dr[f:t] = True
+        if tbl in FRC_ALWAYS:
+            frc[f:t] = True
+        if tbl in FRC_IF_CONTROL_ACTIVE and t > f:
+            frc[f:t] = net[tbl].control_active.values.astype(bool)
+    return dr, frc
+
+
+def branches_literal(bp, net=None):
+    """structural branch rows; DIRECTED / FRC are the *documented* flags when the net is given (the model then says
+    what the property says; a pit that flags other kinds shows up as a mask mismatch)"""
     n, b = idx()
     fr = cm.as_int_list(bp[:, b.FROM_NODE], "FROM_NODE")
     to = cm.as_int_list(bp[:, b.TO_NODE], "TO_NODE")
     act = bp[:, b.ACTIVE].astype(bool)
-    dr = bp[:, b.DIRECTED].astype(bool)
-    frc = bp[:, b.FLOW_RETURN_CONNECT].astype(bool)
+    if net is not None:
+        dr, frc = doc_flags(net)
+    else:
+        dr = bp[:, b.DIRECTED].astype(bool)
+        frc = bp[:, b.FLOW_RETURN_CONNECT].astype(bool)
     return clist(["{| b_from := %s; b_to := %s; b_active := %s; b_directed := %s; b_frc := %s |}"
                   % (cnat(f), cnat(t), cbool(a), cbool(d), cbool(c)) for f, t, a, d, c in zip(fr, to, act, dr, frc)])
 
@@ -49,7 +75,8 @@ def conn_case(net, check=True):
     n, b = idx()
     s = setup_pit(net, check_connectivity=check)
     npit, bpit = net["_pit"]["node"], net["_pit"]["branch"]
-    lit_bs = branches_literal(bpit)
+    lit_bs = branches_literal(bpit, net)
+    ddr, dfrc = doc_flags(net)
     nact = npit[:, n.ACTIVE].astype(bool)
     slack = npit[:, n.NODE_TYPE] == n.P
     try:
@@ -61,7 +88,9 @@ def conn_case(net, check=True):
            % (cnat(len(npit)), lit_bs, cm.bl(nact), cm.bl(slack), cbool(check), masks_literal(obs)))
     info = {"nodes": len(npit), "branches": len(bpit), "failed": obs is None,
             "unsupplied_nodes": int(np.sum(~obs[0])) if obs else len(npit),
-            "frc": int(np.sum(bpit[:, b.FLOW_RETURN_CONNECT] != 0)), "directed": int(np.sum(bpit[:, b.DIRECTED] != 0))}
+            "frc": int(np.sum(dfrc)), "directed": int(np.sum(ddr)),
+            "flags_as_documented": bool(np.array_equal(ddr, bpit[:, b.DIRECTED].astype(bool)) and
+                                        np.array_equal(dfrc, bpit[:, b.FLOW_RETURN_CONNECT].astype(bool)))}
     return txt, info, obs
 
 
@@ -79,7 +108,7 @@ def heat_case(net):
     except s.PipeflowNotConverged:
         obs = None
     return ("{| hc_n := %s; hc_bs := %s; hc_bact := %s; hc_nact := %s; hc_tslack := %s; hc_obs := %s |}"
-            % (cnat(len(npit)), branches_literal(bpit), cm.bl(bact), cm.bl(nact), cm.bl(tsl), masks_literal(obs)))
+            % (cnat(len(npit)), branches_literal(bpit, net), cm.bl(bact), cm.bl(nact), cm.bl(tsl), masks_literal(obs)))
 
 
 def tabs_literal(net, kind, names):
